@@ -81,4 +81,41 @@ inductive TopValue : List Tok → Prop where
   | bracket (sq : Bool) (a : List Tok) : Bal a → TopValue (.opn sq :: a ++ [.cls sq])
   | str (body : List SChar) : body.all SChar.ok = true → TopValue [.str body]
 
+/-! ### the timeout ring as the ticks see it -/
+
+/-- the slots in the order the coming ticks hand them to the timeout handler:
+the slot after the current one first, the current slot last -/
+def order : List (List Nat) → List (List Nat)
+  | [] => []
+  | cur :: rest => rest ++ [cur]
+
+/-- the ids the next tick hands to the timeout handler (`tobe_handle`) -/
+def Rpc.nextItems (s : Rpc) : List Nat := (order s.ring).headD []
+
+/-- the ids handed to the timeout handler by each `tick` of an op sequence, in order -/
+def runHanded (s : Rpc) : List Op → List (List Nat)
+  | [] => []
+  | op :: ops =>
+    match op with
+    | .tick => s.nextItems :: runHanded (step s .tick).1 ops
+    | _ => runHanded (step s op).1 ops
+
+def ticks : List Op → Nat
+  | [] => 0
+  | .tick :: ops => ticks ops + 1
+  | _ :: ops => ticks ops
+
+/-- `onTimerTick` as reordered by the seeded change seeded/C14-1 (idle decided before the
+callbacks, timer disabled after them) — only used for `C14_pending_timer_on_counterexample` -/
+def Rpc.tickSeeded (s : Rpc) : Rpc × List REv :=
+  match s.ring with
+  | [] => (s, [])
+  | cur :: rest =>
+    match rest ++ [cur] with
+    | [] => (s, [])
+    | items :: others =>
+      let vn' := s.vn - items.length
+      let r := Rpc.completeAll { s with ring := [] :: others, vn := vn' } kRequestTimeout items
+      (if vn' = 0 then { r.1 with timerOn := false } else r.1, r.2)
+
 end Tbox.C14
